@@ -143,3 +143,19 @@ Definition subst_vars (M : Q) (al tl : list Q) (U : ulp) : option ulp :=
 (* value maps *)
 Definition subst_value (U : ulp) (tl : list Q) (v : Q) : Q :=
   v - sumn (un U) (fun j => uc_obj (ucolj U j) * nth j tl 0).
+
+(* column permutation: new column k is old column p[k]; row entries are renamed accordingly *)
+Fixpoint index_of (j : nat) (p : list nat) : nat :=
+  match p with
+  | [] => O
+  | a :: r => if Nat.eqb a j then O else S (index_of j r)
+  end.
+Definition perm_ent (p : list nat) (e : list (nat * Q)) : list (nat * Q) :=
+  map (fun kv => (index_of (fst kv) p, snd kv)) e.
+Definition perm_cols (p : list nat) (U : ulp) : option ulp :=
+  if is_perm (un U) p && wf_ulp U then
+    Some {| u_max := u_max U;
+            u_cols := map (fun k => nth k (u_cols U) ducol) p;
+            u_rows := map (fun r => {| ur_sense := ur_sense r; ur_rhs := ur_rhs r; ur_range := ur_range r;
+                                       ur_ent := perm_ent p (ur_ent r) |}) (u_rows U) |}
+  else None.
